@@ -26,6 +26,8 @@ extern "C" {
 }
 
 static unsigned long long n_pairs = 0, n_allocs = 0, n_internal = 0, n_errors = 0;
+static int g_nh_calls = 0;
+static void probe_new_handler() { if (++g_nh_calls >= 2) std::set_new_handler(nullptr); }
 static void fail(const char* fmt, ...) __attribute__((format(printf, 1, 2)));
 static void fail(const char* fmt, ...) {
   va_list ap; va_start(ap, fmt); char b[1024]; vsnprintf(b, sizeof(b), fmt, ap); va_end(ap);
@@ -136,6 +138,13 @@ int main(int argc, char** argv) {
     for (size_t a = 1; a < sizeof(void*); a *= 2) { void* p = (void*)0x1; int rc = posix_memalign(&p, a, 64); if (rc != EINVAL || p != (void*)0x1) fail("posix_memalign(alignment %zu) returned %d (expected EINVAL, *memptr untouched)", a, rc); }
     { void* p = (void*)0x1; int rc = posix_memalign(&p, 64, huge); if (rc != ENOMEM || p != (void*)0x1) fail("posix_memalign(too large) returned %d", rc); }
     if (::operator new(huge, std::nothrow) != nullptr) fail("operator new(nothrow) of an oversized request did not return nullptr");
+    // the C++ new-handler: the overriding operator new must call it on failure, and the override must not change what std::get_new_handler reports
+    { g_nh_calls = 0; std::set_new_handler(&probe_new_handler);
+      if (std::get_new_handler() != &probe_new_handler) fail("std::get_new_handler() does not return the handler installed with std::set_new_handler (the override object replaces the function)");
+      void* q = ::operator new(huge, std::nothrow);       // the handler uninstalls itself on its second call, then the request fails for good
+      if (q != nullptr) fail("operator new(nothrow) of an oversized request did not return nullptr");
+      if (g_nh_calls != 2) fail("a failing operator new(nothrow) called the installed new-handler %d times (expected 2: once, and once more after which the handler uninstalls itself)", g_nh_calls);
+      std::set_new_handler(nullptr); }
     if (::operator new[](huge, std::nothrow) != nullptr) fail("operator new[](nothrow) of an oversized request did not return nullptr");
     if (::operator new(huge, std::align_val_t(64), std::nothrow) != nullptr) fail("operator new(align_val_t,nothrow) of an oversized request did not return nullptr");
     if (::operator new[](huge, std::align_val_t(64), std::nothrow) != nullptr) fail("operator new[](align_val_t,nothrow) of an oversized request did not return nullptr");
